@@ -75,6 +75,12 @@ func kinds(cl []codec.Control) string {
 
 func c14request(c *Ctx, env string, cl []codec.Control) {
 	c.Count("cases", 1)
+	// under an error-level and under a debug-level logger (gldap walks every packet it dumps)
+	c14requestOne(c, env, cl, false)
+	c14requestOne(c, env, cl, true)
+}
+
+func c14requestOne(c *Ctx, env string, cl []codec.Control, debug bool) {
 	c.Count("request_direction", 1)
 	c.Count("codec_calls", 1)
 	r := canonReq(env)
@@ -82,8 +88,11 @@ func c14request(c *Ctx, env string, cl []codec.Control) {
 	b := r.Bytes()
 	var req *gldap.Request
 	var err error
-	k := try(func() { req, err = decode(b, 1, false) })
+	k := try(func() { req, err = decode(b, 1, debug) })
 	rep := c14rep{Dir: "request", Env: env, Controls: cl}
+	if debug {
+		env += " (debug-level logger)"
+	}
 	switch {
 	case k != "":
 		c.Outcome("request " + env + " " + kinds(cl) + " panic")
